@@ -191,6 +191,15 @@ CHECK_DEADLOCK FALSE
                        "md_bid": limbs(int(cl.metadata.bid)), "id": e["id"]})
         ev.append(e)
         ctx.count_distinct(("id", rid))
+        if o[0] == "ok" and 0 <= rid < 2**31 - 1:
+            # the odd / even neighbour is presented under the same id: the session keys must be the same
+            other = rid + 1 if rid % 2 == 0 else rid - 1
+            cl3, o3 = setup(128, beacon_id=other, user="u", computer="c", process="p")
+            if o3[0] == "ok" and cl3.beacon_id == cl.beacon_id:
+                dg = hashlib.sha256(cl3.aes_rand).digest()
+                ev.append({"op": "keys", "same": (cl3.aes_rand, cl3.aes_key, cl3.hmac_key) == (cl.aes_rand, cl.aes_key, cl.hmac_key),
+                           "aes": L(cl3.aes_key), "hmac": L(cl3.hmac_key), "digest": L(dg), "md_rand": L(cl3.metadata.aes_rand), "aes_rand": L(cl3.aes_rand),
+                           "md_bid": limbs(int(cl3.metadata.bid)), "id": limbs(cl3.beacon_id)})
     # names: ASCII, long, non-ASCII; the metadata built from them must be encryptable for the server key
     names = [("u", "c", "p"), ("a" * 60, "b" * 60, "c" * 60), ("ü" * 30, "PC", "x.exe"), ("用户", "计算机-PC", "进程.exe"), ("é" * 17, "ñ" * 17, "ß" * 17),
              ("", "", ""), ("john.smith", "WIN-ABCDEFGHIJK", "rundll32.exe"), ("\U0001F600" * 13, "x", "y")]
